@@ -461,7 +461,7 @@ selected alternative.  `blayoutCmds j` are the commands position `j` receives (`
 a plain command goes to every track, a block gives alternative `j`). -/
 
 /-- A MULTI-TRACK LAYOUT WITH CONDITIONAL BLOCKS RUNS, PER TRACK, AS THAT TRACK'S OWN COMMAND
-LIST (PARTIAL: `CmdsOk` — covered command subset, numbers in range — for what each track
+LIST (PARTIAL: `CmdsOk` — covered command subset `LCovered`, numbers in range — for what each track
 receives; the `Clean` hypothesis inside `BLinesOk` is the documented limit D16).  The lines are
 accepted; the track at position `j` of the track list ends, up to source references, as after the
 builder calls of `blayoutCmds j`; no other track changes. -/
@@ -496,6 +496,20 @@ theorem C06_multitrack_eq_single_blocks_partial (ids : List Nat) (j a : Nat) (mu
   refine ⟨s1', s2', h1, h2, hst, ?_⟩
   rw [← Track.strip_getEvents, hst, Track.strip_getEvents]
 
+/-- the `Clean` hypothesis is automatic inside the covered subset: an alternative made of blanks,
+tabs, bars and covered commands never spells `/`, `;`, `}` or NUL (the commands that do — loop
+break, key signatures — are outside `LCovered`); what remains of D16 for such blocks is only
+"one alternative per track" -/
+theorem C06_alternatives_clean (a : List Tok) (hb : ∀ b, Tok.blank b ∈ a → b = 32 ∨ b = 9) (hcov : ∀ c ∈ cmdsOf a, LCovered c) :
+    Clean (altText a) :=
+  clean_alt a hb hcov
+
+example : (∀ b, Tok.blank b ∈ [Tok.blank 32, Tok.cmd (.simple .loopEnd (some { v := 4 }))] → b = 32 ∨ b = 9) ∧
+    (∀ c ∈ cmdsOf [Tok.blank 32, Tok.cmd (.simple .loopEnd (some { v := 4 }))], LCovered c) := by
+  refine ⟨fun b hb => ?_, fun c hc => ?_⟩
+  · simp at hb; exact Or.inl hb
+  · simp [cmdsOf] at hc; subst hc; decide
+
 /-- every command token is followed by a separator (or ends its run) -/
 def SepToks : List Tok → Prop
   | .cmd _ :: .cmd _ :: _ => False
@@ -512,13 +526,14 @@ def _root_.Ctrmml.Mml.BLine.items : BLine → List Item
   | .cont _ items _ => items
   | _ => []
 
-/-- the full statement of `multitrack_eq_single`, for EVERY command of the language (`Tok.cmd`
-takes any `Cmd`), from the empty song: a multi-track layout with conditional blocks whose
+/-- the full statement of `multitrack_eq_single`, for EVERY command of the AST `MmlMeaning.Cmd`
+(`Tok.cmd` takes any `Cmd`: all documented commands but the platform-exclusive string `'…'`), from
+the empty song: a multi-track layout with conditional blocks whose
 alternatives are `Clean`, every command followed by a separator, is accepted exactly when the
 single-track layouts of all its tracks are, and then gives each track the events of its
 single-track layout.  NOT proved in this generality: `C06_multitrack_eq_single_blocks_partial`
-has the extra hypothesis `CmdsOk` (every command in the subset C05 covers, numbers in range,
-`&` finds its note), under which everything is accepted.  Without `Clean` the statement is false:
+has the extra hypothesis `CmdsOk` (every command in the covered subset `LCovered`, numbers in
+range, `&` finds its note), under which everything is accepted.  Without `Clean` the statement is false:
 D16, `C06_nested_separator_counterexample`. -/
 def C06_full_statement_multitrack_eq_single : Prop :=
   ∀ (ids : List Nat) (multi : List BLine) (single : Nat → List LLine),
@@ -535,8 +550,8 @@ def _root_.Ctrmml.Mml.LLine.toks : LLine → List Tok
   | .cont _ ts _ => ts
   | _ => []
 
-/-- the full statement of layout invariance, for EVERY command of the language, from the empty
-song: two layouts of one command list, every command followed by a separator, are both accepted
+/-- the full statement of layout invariance, for EVERY command of the AST `MmlMeaning.Cmd`, from
+the empty song: two layouts of one command list, every command followed by a separator, are both accepted
 or both rejected, and when accepted give the track the same events.  NOT proved in this
 generality: `C06_layout_invariant_partial` has the extra hypothesis `CmdsOk` (covered subset). -/
 def C06_full_statement_layout_invariant : Prop :=
